@@ -741,3 +741,134 @@ Definition world_call (n : nat) (run : stepfn) (w : world) (o : opath) (s : spat
 Definition mres_of_ires (calls0 : list logitem) (r : ires) : mres world :=
   let w := mkw (r_fs r) (r_rest r) (calls0 ++ r_calls r) in
   match r_end r with IReturned => MOk w | how => MEnd how w end.
+
+(* ---------- vocabulary of the source-translation link of the run_* command builders (harness/src_functions.py C19_RUN_*,
+   Generated/SrcOrchCmd.v) ----------
+   A command line is the list of its words; an item is None when the caller handed None where a string is needed.
+     word                    WLit = a string literal of the source (its code points); the other constructors are the values
+                             the builders put on the command line: get_main_nf_file(), a screen path, the job output directory,
+                             its work directory, the experiment name, the two glob patterns get_theta_and_dist_chunks returns,
+                             "--excludes=<ids joined by commas>", a word of the operator's extra arguments (opaque; the model
+                             assumes it is none of the script's own options)
+     join_words              ' '.join(cmd) inside the logged f-string: TypeError on a None item, before anything is started
+     check_call              subprocess.check_call(cmd, cwd=<repository root>): TypeError on a None item; otherwise the process
+                             is started.  What nextflow makes of the words (launch_of_words) is read off main.nf and the three
+                             workflows: `nextflow run <main.nf>`, then options `--key value` (opt_value: the word after the first
+                             occurrence of the key); params.mode selects the workflow; RETROSPECTIVE takes params.screen when
+                             params.initialize is true and params.training_screen / params.test_screen otherwise;
+                             NEXT_BATCH_PLATE takes screen, thetas, distance_matrix (globs under ONE job directory in the model)
+                             and the excludes; the files are published under params.outdir.  Any other command line is no launch
+                             of the model (nextflow exits with an error: CalledProcessError, why = 8).  -work-dir, --name and the
+                             extra words are not interpreted (Abstracted, header). *)
+Inductive tglob := TGlob (s : step).      (* os.path.join(<job dir>, "*", "thetas*.h5") *)
+Inductive dglob := DGlob (s : step).      (* os.path.join(<job dir>, "*", "distance_matrix_chunk*.h5") *)
+Inductive word :=
+| WLit (s : list Z)
+| WMainNf
+| WScreen (p : spath)
+| WJob (s : step)
+| WWork (s : step)
+| WName (e : ename)
+| WThetas (s : step)
+| WDist (s : step)
+| WExcludes (l : list Z)
+| WExtra (x : Z).
+Definition word_of_tglob (g : tglob) : word := match g with TGlob s => WThetas s end.
+Definition word_of_dglob (g : dglob) : word := match g with DGlob s => WDist s end.
+Definition extra_word (x : Z) : option word := Some (WExtra x).
+
+From Coq Require Strings.String Strings.Ascii.
+Definition lit (s : String.string) : list Z :=
+  map (fun a => Z.of_N (Ascii.N_of_ascii a)) (String.list_ascii_of_string s).
+Section Literals.
+Import Coq.Strings.String.
+Definition L_nextflow : list Z := Eval compute in lit "nextflow".
+Definition L_run : list Z := Eval compute in lit "run".
+Definition L_mode : list Z := Eval compute in lit "--mode".
+Definition L_retrospective : list Z := Eval compute in lit "retrospective".
+Definition L_prospective : list Z := Eval compute in lit "prospective".
+Definition L_next_plate : list Z := Eval compute in lit "next_plate".
+Definition L_screen : list Z := Eval compute in lit "--screen".
+Definition L_training_screen : list Z := Eval compute in lit "--training_screen".
+Definition L_test_screen : list Z := Eval compute in lit "--test_screen".
+Definition L_outdir : list Z := Eval compute in lit "--outdir".
+Definition L_initialize : list Z := Eval compute in lit "--initialize".
+Definition L_true : list Z := Eval compute in lit "true".
+Definition L_reveal : list Z := Eval compute in lit "--reveal".
+Definition L_thetas : list Z := Eval compute in lit "--thetas".
+Definition L_distance_matrix : list Z := Eval compute in lit "--distance_matrix".
+End Literals.
+
+Fixpoint zlist_eqb (a b : list Z) : bool :=
+  match a, b with
+  | [], [] => true
+  | x :: a', y :: b' => (x =? y) && zlist_eqb a' b'
+  | _, _ => false
+  end.
+(* the value of option `key`: the word after the first occurrence of the literal `key` *)
+Fixpoint opt_value (key : list Z) (ws : list word) : option word :=
+  match ws with
+  | [] => None
+  | w :: r =>
+      match w, r with
+      | WLit s, v :: _ => if zlist_eqb s key then Some v else opt_value key r
+      | _, _ => opt_value key r
+      end
+  end.
+Definition is_lit (s : list Z) (w : option word) : bool :=
+  match w with Some (WLit t) => zlist_eqb t s | _ => false end.
+(* --excludes=<ids>: the first such word; none = nothing excluded *)
+Fixpoint excludes_of (ws : list word) : list Z :=
+  match ws with
+  | [] => []
+  | WExcludes l :: _ => l
+  | _ :: r => excludes_of r
+  end.
+Definition step_eqb (a b : step) : bool := (fst a =? fst b) && (snd a =? snd b).
+
+Definition launch_of_options (opts : list word) : option (step * launch) :=
+  match opt_value L_outdir opts with
+  | Some (WJob s) =>
+      if is_lit L_retrospective (opt_value L_mode opts) then
+        if is_lit L_true (opt_value L_initialize opts) then
+          match opt_value L_screen opts with Some (WScreen p) => Some (s, LInit p) | _ => None end
+        else
+          match opt_value L_training_screen opts, opt_value L_test_screen opts with
+          | Some (WScreen tr), Some (WScreen te) => Some (s, LFirst tr te)
+          | _, _ => None
+          end
+      else if is_lit L_prospective (opt_value L_mode opts) then
+        match opt_value L_screen opts with Some (WScreen p) => Some (s, LProsp p) | _ => None end
+      else if is_lit L_next_plate (opt_value L_mode opts) && is_lit L_true (opt_value L_reveal opts) then
+        match opt_value L_screen opts, opt_value L_thetas opts, opt_value L_distance_matrix opts with
+        | Some (WScreen p), Some (WThetas t), Some (WDist d) =>
+            if step_eqb t d then Some (s, LNext p t (excludes_of opts)) else None
+        | _, _, _ => None
+        end
+      else None
+  | _ => None
+  end.
+Definition launch_of_words (ws : list word) : option (step * launch) :=
+  match ws with
+  | WLit p :: WLit r :: WMainNf :: opts =>
+      if zlist_eqb p L_nextflow && zlist_eqb r L_run then launch_of_options opts else None
+  | _ => None
+  end.
+
+Fixpoint all_words (cmd : list (option word)) : option (list word) :=
+  match cmd with
+  | [] => Some []
+  | Some w :: r => match all_words r with Some ws => Some (w :: ws) | None => None end
+  | None :: _ => None
+  end.
+Definition join_words (done : list action) (cmd : list (option word)) : sres (list action) :=
+  match all_words cmd with Some _ => SOk done | None => SRaised done 9 end.
+Definition check_call (done : list action) (cmd : list (option word)) : sres (list action) :=
+  match all_words cmd with
+  | None => SRaised done 9
+  | Some ws =>
+      match launch_of_words ws with
+      | Some (s, l) => SOk (done ++ [ALaunch s l])
+      | None => SRaised done 8
+      end
+  end.
